@@ -124,6 +124,14 @@ impl Backoff {
     pub fn verif_value(&self) -> Duration {
         self.value
     }
+
+    /// Verification hook: pretend that the last reset happened `by` earlier.
+    #[cfg(not(test))]
+    pub fn verif_age(&mut self, by: Duration) {
+        if let Some(earlier) = self.last_reset_at.checked_sub(by) {
+            self.last_reset_at = earlier;
+        }
+    }
 }
 
 #[cfg(test)]
